@@ -317,9 +317,12 @@ def judge(ctx, inputs, label):
         cand = sorted(bad, key=lambda b: (b[1][1], b[0]))[:20000]      # totality failures (clause 1) are reported first
         again = vlib.drive(ctx, "c12", [to_input(obs[gi]) for gi, _ in cand], timeout=3000)
         bad2 = dict(tlc_judge(ctx, again))
+        lost = []
         for j, (gi, ent) in enumerate(cand):
             if j not in bad2:
-                raise vlib.Infra("rejected call not reproduced (first clause %s, then accepted): %s" % (ent[1], json.dumps(to_input(obs[gi]))[:600]))
+                # e.g. a worker process killed by another call's memory exhaustion: the call in flight is blamed the first time only
+                lost.append("first clause %s, then accepted: %s" % (ent[1], json.dumps(to_input(obs[gi]))[:400]))
+                continue
             o = dict(again[j])
             o["verdict"], o["expected"] = bad2[j][1], {0: "any", 1: "err", 2: "ok"}.get(bad2[j][2], "?")
             o["cls"] = CLS.get(o["wr"], "1d")
@@ -329,6 +332,10 @@ def judge(ctx, inputs, label):
                 [(h["k"], h["t"], h["i"], h["sn"], h["a"], h["b"]) for h in o["hints"]], o["mat"], o["ow"], o["oh"], o["err"], o["panic"], o["hang"],
                 o["sw"], o["sh"], o["msg"][:80], CLAUSE.get(o["verdict"], "?"))
             vlib.reject(ctx, o, why, replay_events=[to_input(o)], preds=PREDS)
+        if lost:
+            if len(lost) == len(cand):
+                raise vlib.Infra("no rejected call was reproduced (%d): %s" % (len(lost), lost[0]))
+            ctx.note("%s: %d rejected calls were not reproduced on their own and are not counted (first: %s)" % (label, len(lost), lost[0]))
     return obs
 
 
